@@ -32,6 +32,8 @@ type CallRec struct {
 	Args []Val
 	Res  Val
 	Seq  int
+	PreW  map[string]string
+	PostW map[string]string
 }
 
 type State struct {
@@ -41,6 +43,7 @@ type State struct {
 	defs   []string  // definitional facts (always true of the terms they mention)
 	calls  []CallRec // ghost log of calls (contracted / intrinsic externals of interest)
 	dead   bool
+	loopMark int // index into calls at the last loop entry
 	panics string // non-empty: path ended in panic (reason)
 	trace  []string
 }
@@ -50,7 +53,7 @@ func newState() *State {
 }
 
 func (s *State) clone() *State {
-	n := &State{cells: make(map[int]Val, len(s.cells)), worlds: make(map[int]*World, len(s.worlds)), dead: s.dead, panics: s.panics}
+	n := &State{cells: make(map[int]Val, len(s.cells)), worlds: make(map[int]*World, len(s.worlds)), dead: s.dead, panics: s.panics, loopMark: s.loopMark}
 	for k, v := range s.cells {
 		n.cells[k] = v
 	}
@@ -123,6 +126,7 @@ type Obligation struct {
 	extra   []string // extra assertions (key axioms)
 	Bounded bool
 	Confirm string
+	precomputed bool
 	defs    []string
 	env     *Env
 }
@@ -166,13 +170,17 @@ type Env struct {
 	splitInfo map[string]*splitRec
 	termFacts map[string][]string
 	nonNil    map[string]bool
+	topVars   map[string]Val
+	curFrame  *Frame
+	callSiteHits map[string]int
+	clauseErrs []string
 }
 
 func newEnv(p *Program, cx *Contracts, cfg *PropConfig) *Env {
 	d := newDecls()
 	return &Env{P: p, D: d, S: newSorter(d), Cx: cx, cfg: cfg, maxPaths: 20000,
 		trusted: map[string]int{}, dropped: map[string]int{}, inlined: map[string]int{}, havocked: map[string]int{}, notes: map[string]int{},
-		splitInfo: map[string]*splitRec{}, termFacts: map[string][]string{}, nonNil: map[string]bool{}, keyTerms: map[string][]Seg{}, shapes: map[string]string{}, noContract: map[*ssa.Function]bool{}}
+		splitInfo: map[string]*splitRec{}, termFacts: map[string][]string{}, nonNil: map[string]bool{}, callSiteHits: map[string]int{}, keyTerms: map[string][]Seg{}, shapes: map[string]string{}, noContract: map[*ssa.Function]bool{}}
 }
 
 func (e *Env) fail(format string, a ...interface{}) {
@@ -280,6 +288,29 @@ func (e *Env) allComps() []string {
 func (e *Env) havocComp(st *State, w int, comp string, why string) {
 	fresh := e.D.fresh("havoc_"+comp, e.compSort(comp))
 	e.applyOp(st, w, WorldOp{Comp: comp, F: func(string) string { return fresh }, Desc: "havoc " + why})
+}
+
+// havocStore havocs the keys below the store view's prefix; every other key keeps its value.
+func (e *Env) havocStore(st *State, s *StoreRef, why string) {
+	if len(s.Prefix) == 0 {
+		e.havocComp(st, s.World, s.Comp, why)
+		return
+	}
+	e.D.declFun("hasprefix", "(declare-fun hasprefix (Str Str) Bool)")
+	pfx := e.segsTerm(s.Prefix)
+	fresh := e.D.fresh("havoc_"+s.Comp, e.compSort(s.Comp))
+	e.D.n++
+	kv := fmt.Sprintf("k!q%d", e.D.n)
+	var frames []string
+	e.applyOp(st, s.World, WorldOp{Comp: s.Comp, F: func(old string) string {
+		frames = append(frames, fmt.Sprintf("(forall ((%s Str)) (! (=> (not (hasprefix %s %s)) (= (select %s %s) (select %s %s))) :pattern ((select %s %s))))", kv, kv, pfx, fresh, kv, old, kv, fresh, kv))
+		return fresh
+	}, Desc: "havoc below prefix " + why})
+	// the op runs immediately on root worlds; on cache worlds it runs at read time, so force a read now
+	e.readComp(st, s.World, s.Comp)
+	for _, f := range frames {
+		st.define(f)
+	}
 }
 
 // havocWorld havocs all components of a world (unknown callee with a ctx argument).
